@@ -174,9 +174,13 @@ MainText(users, sig, vs) ==
       lets == [j \in 1..n |->
                 IF IsVoid(sig.args[j]) THEN ""
                 ELSE "let a" \o ToString(j) \o ": " \o AbraTy(sig.args[j]) \o " = " \o AbraLit(sig.args[j], vs[j]) \o "\n"]
-      call == sig.name \o "(" \o JoinT([j \in 1..n |-> IF IsVoid(sig.args[j]) THEN "nil" ELSE "a" \o ToString(j)], ", ") \o ")"
+      \* the host function is called by name, or through a variable that holds it as a first-class value
+      byvalue == "via" \in DOMAIN sig /\ sig.via = "value"
+      call == (IF byvalue THEN "hv" ELSE sig.name) \o "("
+              \o JoinT([j \in 1..n |-> IF IsVoid(sig.args[j]) THEN "nil" ELSE "a" \o ToString(j)], ", ") \o ")"
   IN "use host\n"
      \o JoinT([j \in 1..Len(users) |-> TypeImpl(users[j])], "")
+     \o (IF byvalue THEN "let hv = " \o sig.name \o "\n" ELSE "")
      \o "let marker = " \o Marker \o "\n"
      \o JoinT(lets, "")
      \o "let marker2 = " \o Marker2 \o "\n"
@@ -217,6 +221,7 @@ CaseFeat(sig, vs) ==
   UNION {TyFeat(sig.args[j]) \cup ValFeat(sig.args[j], vs[j]) : j \in 1..Len(sig.args)}
   \cup (IF \E j \in 1..Len(sig.args) : IsVoid(sig.args[j]) THEN {"void-parameter"} ELSE {})
   \cup {"arity-" \o ToString(Len(sig.args)), "returns:" \o SigDesc(sig).ret}
+  \cup (IF "via" \in DOMAIN sig /\ sig.via = "value" THEN {"called-through-function-value"} ELSE {})
 
 \* ---- defect families (see HostAbi: where the protocol as written and the compiler's layout disagree)
 KeyOf(sig, vs) ==
